@@ -350,10 +350,13 @@ func genC05sched(e *emitter, r *rng, tier string) {
 		{"G:0:1:0", []string{"at:0:0", "at:0:5"}, 0, 3},
 		{"G:5:1:0", []string{"at:0:4;at:0:5", "at:0:250"}, 2, 2},
 		{"G:200:1:0", []string{"at:0:199", "at:0:200;at:0:0"}, 1, 2},
+		// a request at the top of the int range on a finite source: the block count must be clamped
+		{"G:3:1:0", []string{"at:0:9223372036854775806", "at:0:2"}, 0, 2},
+		{"G:100:1:0", []string{"at:0:9223372036854775807;at:0:99", "at:0:100"}, 0, 2},
 	}
-	maxRuns := 400
+	maxRuns := 1500
 	if thorough {
-		maxRuns = 6000
+		maxRuns = 12000
 		cfgs = append(cfgs,
 			cfg{"G:-1:1:0", []string{"at:0:250", "at:0:50", "at:0:150"}, 1, 3},
 			cfg{"G:300:1:0", []string{"at:0:299;at:0:300", "at:0:100;at:0:301", "at:0:0"}, 1, 2},
